@@ -15,7 +15,14 @@ for sid in sorted(os.listdir(os.path.join(V, "seeded"))):
     wt = "/var/tmp/sweepwt.%d" % os.getpid()
     subprocess.run(["git", "-C", "/repo", "worktree", "add", "-q", "--detach", wt, "HEAD"], check=True)
     try:
-        subprocess.run(["git", "apply", os.path.join(d, "patch.diff")], cwd=wt, check=True)
+        ap = subprocess.run(["git", "apply", os.path.join(d, "patch.diff")], cwd=wt, capture_output=True, text=True)
+        if ap.returncode != 0:
+            ap = subprocess.run(["git", "apply", "-3", os.path.join(d, "patch.diff")], cwd=wt, capture_output=True, text=True)
+        if ap.returncode != 0:
+            rows.append({"seed": sid, "property": prop, "rc": -1, "seconds": 0, "failed": [], "undecided": [], "violation_lines": [],
+                         "note": "patch no longer applies to /repo HEAD (the code it changes was touched by a later fix: commit)"})
+            print(sid, prop, "PATCH DOES NOT APPLY", flush=True)
+            continue
         t0 = time.time()
         env = dict(os.environ, VERIF_REPO=wt)
         p = subprocess.run([os.path.join(V, "bin", "check"), prop, "--tier", "quick"], env=env, capture_output=True, text=True)
